@@ -247,10 +247,16 @@ def gen_history(rng, nsteps, forced_bad=None):
                 continue
             key = rng.choice(keys_now)
             new = sim.fresh('k')
+            if len(keys_now) > 1 and rng.random() < 0.25:
+                # onto the key of another variable, which is thereby replaced (its dimensions may become unused)
+                new = rng.choice([q for q in keys_now if q != key])
             inplace = rng.random() < 0.8
             steps.append({"op": "rename_keys", "key": key, "new": new, "callable": rng.random() < 0.3, "inplace": inplace})
             if inplace:
+                replaced = sim.vars.get(new)
                 sim.vars[new] = sim.vars.pop(key)
+                if replaced is not None:
+                    sim.gc(replaced, direct)
         elif op == 'append_axis':
             name = sim.fresh('p')
             k = rng.choice('if')
@@ -557,7 +563,11 @@ def check(case, ctx):
                 ctx.v(ID, "rename_keys-raised", "rename_keys raised %s: %s; %s" % (type(exc).__name__, str(exc)[:100], where))
                 return ('rename_keys-raised',)
             if st["inplace"]:
+                replaced = mo.vars.get(new)
                 mo.vars[new] = mo.vars.pop(key)
+                if replaced is not None:
+                    ctx.outcomes['rename_keys-onto-existing-key'] += 1
+                    mo.gc(list(replaced.dims))
             else:
                 mo2 = copy.deepcopy(mo)
                 mo2.vars[new] = mo2.vars.pop(key)
